@@ -225,7 +225,13 @@ fn api_raw(api: Api, p: &Path, rebuild: bool) -> Result<Option<Memvid>, MemvidEr
         Api::Doctor => {
             let mut o = doctor_opts();
             if rebuild { o.rebuild_time_index = true; o.rebuild_lex_index = true; }
-            Memvid::doctor(p, o).map(|_| None)
+            let rep = Memvid::doctor(p, o)?;
+            if rep.status == memvid_core::DoctorStatus::Failed {
+                let lock = rep.findings.iter().any(|f| f.message.contains("exclusive access") || f.detail.as_deref().unwrap_or("").contains("exclusive access"));
+                return Err(if lock { MemvidError::Lock("doctor: exclusive access unavailable".into()) }
+                           else { MemvidError::Doctor { reason: "doctor report: failed".into() } });
+            }
+            Ok(None)
         }
     }
 }
@@ -239,11 +245,26 @@ fn call_api_opt(api: Api, path: &Path, dir: &Path, rebuild: bool, quiet_hook: bo
     let r: Result<Result<Option<Memvid>, MemvidError>, String> = if quiet_hook { guarded(move || api_raw(api, &p, rebuild)) } else {
         std::panic::catch_unwind(move || api_raw(api, &p, rebuild)).map_err(|_| "panic".to_string())
     };
-    match r {
-        Ok(Ok(h)) => ("ok".into(), h),
+    let (res, h) = match r {
+        Ok(Ok(h)) => ("ok".to_string(), h),
         Ok(Err(e)) => (classify(&e, dir), None),
         Err(p) => (format!("panic:{p}"), None),
+    };
+    if api == Api::Doctor && (res == "corrupt" || res.starts_with("panic:")) {
+        // a doctor run that gives up (or trips its own debug assertion on pending WAL records — the C21/C22
+        // finding) is a failed call for this property; what matters here is what it left in the directory
+        if res.starts_with("panic:") { DOCTOR_PANICS.fetch_add(1, std::sync::atomic::Ordering::Relaxed); }
+        return ("failed".into(), h);
     }
+    (res, h)
+}
+
+static DOCTOR_PANICS: std::sync::atomic::AtomicUsize = std::sync::atomic::AtomicUsize::new(0);
+
+fn doctor_req(name: &str, res: &str, rounds: &[Round]) -> String {
+    if res == "lock" { return format!("doctor {name} 1 - 0"); }
+    let toks: Vec<String> = rounds.iter().map(|r| stage_token(Some(r), true)).collect();
+    format!("doctor {name} 0 {} {}", if toks.is_empty() { "-".to_string() } else { toks.join(";") }, (res == "ok") as u8)
 }
 
 fn file_hash(p: &Path) -> String { std::fs::read(p).map(|b| b3short(&b)).unwrap_or_else(|_| "absent".into()) }
@@ -351,6 +372,7 @@ impl<'d> Run<'d> {
                 if !kind.is_empty() {
                     let k = kind.split(':').next().unwrap_or("").to_string();
                     self.tag(&format!("fail-{k}"));
+                    if std::env::var("C19_VERBOSE").is_ok() { println!("      error: {:?}", step.ack); }
                 }
                 let commit_failed = kind.starts_with("commit-failed");
                 let events = self.take_events();
@@ -408,6 +430,7 @@ impl<'d> Run<'d> {
                         let rest: Vec<String> = it.by_ref().map(|r| stage_token(Some(r), true)).collect();
                         let doc_ok = self.world.last_doctor.as_deref().map(|s| !s.starts_with("error") && !s.starts_with("panic")).unwrap_or(false);
                         if !rest.is_empty() { self.tag("doctor-internal-commit"); }
+                        if std::env::var("C19_VERBOSE").is_ok() { println!("      doctor said: {:?}", self.world.last_doctor); }
                         out.reqs.push(format!("doctor {MAIN} 0 {} {}", if rest.is_empty() { "-".to_string() } else { rest.join(";") }, doc_ok as u8));
                         out.reqs.push(format!("open {MAIN} 0 none"));
                         out.real.extend([Some("ok".into()), Some(if doc_ok { "ok".into() } else { "failed".into() }), Some("ok".into())]);
@@ -463,6 +486,7 @@ impl<'d> Run<'d> {
                 let _ = before_dirty;
                 let ok = r.is_ok();
                 let ac = ok && !after.dirty;
+                if ac { self.tag("auto-commit"); }
                 let events = self.take_events();
                 let (rounds, _) = rounds_of(&events, SIDE);
                 out.reqs.push(format!("call {SIDE} mutate {} {} {}", ok as u8, ac as u8, stage_token(rounds.first(), ok)));
@@ -527,9 +551,8 @@ impl<'d> Run<'d> {
                 let lib: Vec<Eff> = events.iter().filter(|e| !own.contains(e)).cloned().collect();
                 let (rounds, _) = rounds_of(&lib, SIDE);
                 if *api == Api::Doctor {
-                    let toks: Vec<String> = rounds.iter().map(|r| stage_token(Some(r), true)).collect();
-                    out.reqs.push(format!("doctor {SIDE} 0 {} {}", if toks.is_empty() { "-".into() } else { toks.join(";") }, (res == "ok") as u8));
-                    out.real.push(Some(if res == "corrupt" { "failed".into() } else { res.clone() }));
+                    out.reqs.push(doctor_req(SIDE, &res, &rounds));
+                    out.real.push(Some(res.clone()));
                 } else {
                     out.reqs.push(req);
                     out.real.push(Some(res.clone()));
@@ -583,7 +606,9 @@ impl<'d> Run<'d> {
                 if let Some(m) = h { std::mem::forget(m); } // never expected: do not let a second writer commit
                 self.failing_calls += 1;
                 if res == "lock" { self.tag("lock-contention"); }
-                out.reqs.push(match api { Api::Doctor => format!("doctor {MAIN} 1 - 0"), _ => format!("open {MAIN} 0 lock") });
+                let events = self.take_events();
+                let (rounds, _) = rounds_of(&events, MAIN);
+                out.reqs.push(match api { Api::Doctor => doctor_req(MAIN, &res, &rounds), _ => format!("open {MAIN} 0 lock") });
                 out.real.push(Some(res));
             }
             XOp::FaultReplaceByDir => {
@@ -657,6 +682,7 @@ fn run_history(src: Source, drv: Option<&mut Driver>, verbose: bool) -> (Vec<XOp
     let mut out = Outcome::default();
     let mut ops_done: Vec<XOp> = vec![];
     let has_model = drv.is_some();
+    let tmp_before: BTreeSet<String> = listing(&std::env::temp_dir()).into_iter().collect();
     let mut run = match Run::start(drv) { Ok(r) => r, Err(e) => { out.dead = true; out.trace.push(format!("start failed: {e}")); return (ops_done, out); } };
     let (fixed, mut gen_state): (Option<&[XOp]>, Option<(&mut Rng, &GenProfile, usize, GenState)>) = match src {
         Source::Fixed(ops) => (Some(ops), None),
@@ -778,10 +804,9 @@ fn run_history(src: Source, drv: Option<&mut Driver>, verbose: bool) -> (Vec<XOp
     let tampered = run.tampered;
     drop(run);
     if tampered { let _ = std::fs::remove_dir_all(&wdir); }
-    if !crashed && out.oracle.is_none() && out.disagree.is_none() {
-        out.tmp_left = listing(&base);
+    if !crashed && !out.dead && out.oracle.is_none() && out.disagree.is_none() {
+        out.tmp_left = listing(&base).into_iter().filter(|n| !tmp_before.contains(n)).collect();
     }
-    for n in listing(&base) { let p = base.join(&n); let _ = std::fs::remove_dir_all(&p); let _ = std::fs::remove_file(&p); }
     (ops_done, out)
 }
 
@@ -790,11 +815,12 @@ fn run_history(src: Source, drv: Option<&mut Driver>, verbose: bool) -> (Vec<XOp
 
 struct Contention { api: Api, res: String, events: Vec<Eff>, before: Vec<String>, after: Vec<String>, hash_same: bool, secs: f64 }
 
-fn contention(api: Api, base: &Path) -> Contention {
+fn contention(api: Api, base: &Path, ready: std::sync::mpsc::Sender<()>) -> Contention {
     let dir = tempfile::Builder::new().prefix("c19-lock-").tempdir_in(base).expect("tempdir");
     let path = dir.path().join("a.mv2");
     let mut a = Memvid::create(&path).expect("create");
     a.put_bytes(b"held by the first writer").expect("put");
+    let _ = ready.send(());
     let mut w = Watch::new(dir.path());
     let before = listing(dir.path());
     let h0 = file_hash(&path);
@@ -830,11 +856,11 @@ fn corpus() -> Vec<(String, Vec<XOp>)> {
         XOp::Core(Op::Put(PutSpec { emb: Some(EmbSpec { dim: 3, seed: 1 }), ..PutSpec::simple(PayloadSpec::new(PayloadKind::Ascii, 30, 2), 101) })),
         XOp::Core(Op::Put(PutSpec { emb: Some(EmbSpec { dim: 5, seed: 2 }), ..PutSpec::simple(PayloadSpec::new(PayloadKind::Ascii, 30, 3), 102) })),
         XOp::Core(Op::Commit),
-        XOp::Core(Op::Ticket { seq_no: 1, capacity: Some(4096 + 65536 + 2000), issuer: "verif".into() }),
+        XOp::Core(Op::Ticket { seq_no: 5, capacity: Some(4096 + 65536 + 500), issuer: "verif".into() }),
         put(PayloadKind::Rand, 5000, 4, 103), put(PayloadKind::Rand, 5000, 5, 104),
         XOp::Core(Op::Commit), XOp::Core(Op::Commit),
         XOp::Missing { api: Api::Create }, XOp::Missing { api: Api::Open }, XOp::Missing { api: Api::OpenRo }, XOp::Missing { api: Api::Doctor },
-        XOp::Core(Op::Vacuum), XOp::Core(Op::Doctor { vacuum: true, rebuild_time: true, rebuild_lex: true, rebuild_vec: true }),
+        XOp::Core(Op::Vacuum), XOp::Core(Op::Commit), XOp::Core(Op::Doctor { vacuum: true, rebuild_time: true, rebuild_lex: true, rebuild_vec: true }),
         XOp::Read { kind: 0 }, XOp::Read { kind: 1 }, XOp::Read { kind: 2 },
     ]));
     v.push(("two-memories-and-callers-files".into(), vec![
@@ -889,17 +915,22 @@ fn main() {
 
     // lock contention threads run while the histories do
     let lb = lock_base.clone();
+    let (tx, rx) = std::sync::mpsc::channel::<()>();
     let threads: Vec<std::thread::JoinHandle<Contention>> = [Api::Create, Api::Open, Api::OpenRo].into_iter().map(|api| {
         let lb = lb.clone();
-        std::thread::spawn(move || contention(api, &lb))
+        let tx = tx.clone();
+        std::thread::spawn(move || contention(api, &lb, tx))
     }).collect();
+    drop(tx);
+    // wait until every first writer exists (their Tantivy work directories are then in place)
+    for _ in 0..threads.len() { let _ = rx.recv_timeout(std::time::Duration::from_secs(60)); }
 
     let mut rng = Rng::new(args.seed);
     let mut prof = GenProfile::standard(args.thorough);
     prof.w_commit = 12; prof.w_reopen = 7; prof.w_crash = 3; prof.w_vacuum = 4; prof.w_doctor = 3; prof.w_ticket = 3; prof.wrong_dim_percent = 10;
     prof.valid_target_percent = 70;
-    let n_short = args.extra.get("nshort").and_then(|s| s.parse().ok()).unwrap_or(if args.thorough { 300 } else { 26 });
-    let n_long = args.extra.get("nlong").and_then(|s| s.parse().ok()).unwrap_or(if args.thorough { 20 } else { 2 });
+    let n_short = args.extra.get("nshort").and_then(|s| s.parse().ok()).unwrap_or(if args.thorough { 60 } else { 5 });
+    let n_long = args.extra.get("nlong").and_then(|s| s.parse().ok()).unwrap_or(if args.thorough { 3 } else { 0 });
     let known: Vec<String> = args.extra.get("known").map(|s| s.split(',').map(|x| x.to_string()).collect()).unwrap_or_default();
     let _ = &known;
     let mut tmp_left_total = 0usize;
@@ -939,7 +970,7 @@ fn main() {
     }
     for h in 0..(n_short + n_long) {
         let long = h >= n_short;
-        let len = if long { rng.usize(110, 170) } else { rng.usize(12, 60) };
+        let len = if long { rng.usize(110, 170) } else if args.thorough { rng.usize(12, 60) } else { rng.usize(10, 36) };
         let mut hr = rng.fork();
         let (done, o) = run_history(Source::Gen { rng: &mut hr, prof: &prof, len, long }, drv.as_mut(), false);
         tmp_left_total += o.tmp_left.len();
@@ -971,6 +1002,8 @@ fn main() {
         }
         sum.case(&format!("{label}:{}", c.res), true, || case.clone());
     }
+    let dp = DOCTOR_PANICS.load(std::sync::atomic::Ordering::Relaxed);
+    if dp > 0 { sum.notes.push(format!("{dp} doctor runs tripped the debug assertion `probe detected N pending wal records` (C21/C22 finding); counted as failed calls here")); }
     if tmp_left_total > 0 { sum.notes.push(format!("{tmp_left_total} entries were left in the (private) system temp directory after all handles of a crash-free history were dropped")); }
     if let Some(d) = &drv { sum.model_requests = d.requests; }
     let _ = std::fs::remove_dir_all(&base); let _ = std::fs::remove_dir_all(&lock_base);
